@@ -1,7 +1,7 @@
 (* C15 -- Injected out-of-memory hits exactly the designated allocations.
    Only statements; every proof is `exact <lemma>` into C15_Proofs.v. *)
 From Coq Require Import ZArith NArith Bool List.
-From CppUVerif Require Import lib.Str C15_Model C15_Proofs.
+From CppUVerif Require Import lib.Str C15_Model C15_Proofs C15_Release.
 Import ListNotations.
 Local Open Scope Z_scope.
 
@@ -76,6 +76,76 @@ Print Assumptions C15_c_wrappers_null_old_refuted.
 Theorem C15_run_meets_spec : forall s, valid s = true -> spec s (run s) = true.
 Proof. exact run_meets_spec. Qed.
 Print Assumptions C15_run_meets_spec.
+
+(* --------------------------------------------------------------------------------------------------------------
+   Releases and reallocs interleaved with the injected failures (scenario kind SRel): blocks handed out before
+   out-of-memory begins (set_out_of_memory, a countdown reaching 0, a designated failure of a failable allocator) and
+   released / reallocated / copied from while it lasts and after it was cleared.  The saved allocator, the allocator
+   the stand-in was told it stands for and the current allocator are three variables of the model (c_orig, r_for, c_cur).
+   -------------------------------------------------------------------------------------------------------------- *)
+(* the stand-in is current exactly when, by counting the requests since the arming, out-of-memory is on *)
+Theorem C15_rel_oom_state : forall b pre suf,
+  valid (SRel b (pre ++ suf)) = true ->
+  is_null (get_cur (r_c (rmrun (rst0 b) pre))) = q_oom_now (qrun b qst0 pre).
+Proof. exact rel_oom_state. Qed.
+Print Assumptions C15_rel_oom_state.
+
+(* with releases and reallocs in between: a request is refused iff out-of-memory is on by then, or it reaches a failable
+   allocator and its index among the requests that reached it is designated; every other request succeeds *)
+Theorem C15_rel_alloc_fails_iff : forall b pre f suf,
+  valid (SRel b (pre ++ RAlloc f :: suf)) = true ->
+  snd (rstep (rmrun (rst0 b) pre) (RAlloc f)) = Some (OAlloc (if q_fails b (qrun b qst0 pre) then RNull else ROk)).
+Proof. exact rel_alloc_fails_iff. Qed.
+Print Assumptions C15_rel_alloc_fails_iff.
+
+(* a release is never a failure: a live block released at any point of any valid history raises nothing, reaches the
+   allocator that handed it out, and is no longer tracked *)
+Theorem C15_release_never_fails : forall b pre i suf a,
+  valid (SRel b (pre ++ RFree i :: suf)) = true ->
+  nth_error (r_slots (rmrun (rst0 b) pre)) i = Some (SLive a) ->
+  snd (rstep (rmrun (rst0 b) pre) (RFree i)) = Some (OFree false true) /\
+  nth_error (r_slots (fst (rstep (rmrun (rst0 b) pre) (RFree i)))) i = Some SFreed /\
+  r_lost (fst (rstep (rmrun (rst0 b) pre) (RFree i))) = false.
+Proof. exact release_never_fails. Qed.
+Print Assumptions C15_release_never_fails.
+
+(* realloc while out-of-memory is simulated returns NULL, raises nothing and changes nothing: the block stays valid and tracked *)
+Theorem C15_realloc_under_oom : forall b pre i sz suf a,
+  valid (SRel b (pre ++ RRealloc i sz :: suf)) = true ->
+  nth_error (r_slots (rmrun (rst0 b) pre)) i = Some (SLive a) ->
+  q_oom_now (qrun b qst0 pre) = true ->
+  rstep (rmrun (rst0 b) pre) (RRealloc i sz) = (rmrun (rst0 b) pre, Some (ORealloc RNull false true)).
+Proof. exact realloc_under_oom. Qed.
+Print Assumptions C15_realloc_under_oom.
+
+(* ... and at any other time it succeeds without a failure (also under a failable allocator with designations pending) *)
+Theorem C15_realloc_otherwise : forall b pre i sz suf a,
+  valid (SRel b (pre ++ RRealloc i sz :: suf)) = true ->
+  nth_error (r_slots (rmrun (rst0 b) pre)) i = Some (SLive a) ->
+  q_oom_now (qrun b qst0 pre) = false ->
+  snd (rstep (rmrun (rst0 b) pre) (RRealloc i sz)) = Some (ORealloc ROk false true) /\
+  nth_error (r_slots (fst (rstep (rmrun (rst0 b) pre) (RRealloc i sz)))) i = Some (SLive b).
+Proof. exact realloc_otherwise. Qed.
+Print Assumptions C15_realloc_otherwise.
+
+(* clearing restores normal behaviour: after set_not_out_of_memory the three variables read as at the start, and what
+   follows runs exactly as from the state in which the stand-in was never told anything *)
+Theorem C15_reset_restores : forall b pre suf,
+  valid (SRel b (pre ++ RSetNot :: suf)) = true ->
+  let r := rmrun (rst0 b) (pre ++ [RSetNot]) in
+  c_counter (r_c r) = -1 /\ c_orig (r_c r) = None /\ get_cur (r_c r) = b /\
+  rrun_from r suf = rrun_from (forget_for r) suf.
+Proof. exact reset_restores. Qed.
+Print Assumptions C15_reset_restores.
+
+Theorem C15_rel_clear_restores : forall b pre, r_f (rmrun (rst0 b) (pre ++ [RClearF])) = st0.
+Proof. exact rel_clear_restores. Qed.
+Print Assumptions C15_rel_clear_restores.
+
+(* the code before 4104eb1 (the Null allocator stood in on the release path too): malloc; set_out_of_memory; free *)
+Theorem C15_release_old_refuted : ~ release_old_stmt.
+Proof. exact release_old_refuted. Qed.
+Print Assumptions C15_release_old_refuted.
 
 (* --------------------------------------------------------------------------------------------------------------
    The pending-failure list of the model IS the source: LocationToFailAllocNode and the list-walking member functions of FailableMemoryAllocator as tools/cxx2heap.py regenerates them from TestMemoryAllocator.cpp on every run (gen/Gen_HeapC15.v; objects are blocks of cells, C15_HeapRep.v: node_cells / chain / fail_at; a source file name is an opaque integer fc f, fc injective and never 0; the allocations let through and the nodes obtained / released are ghost events), run on a heap that represents a model state, return what the model's should_fail / mstep return and leave a heap that represents the model's new state. The two int counters wrap at 32 bits in the source and not in the model: excluded by no_wrap and s_cur + 1 < 2^31 (ex_wrap_node, ex_wrap_cur in C15_HeapTie.v show the difference)
